@@ -72,8 +72,10 @@ class NS(object):
 
 
 class LoopSpec(object):
-    def __init__(self, inv, variant=None, modifies_vars=(), modifies_fields=(), fingerprint=None, var_types=None):
+    def __init__(self, inv, variant=None, modifies_vars=(), modifies_fields=(), fingerprint=None, var_types=None,
+                 field_types=None):
         self.var_types = dict(var_types or {})   # local name -> T: representation of a list built by the loop
+        self.field_types = dict(field_types or {})   # (var, field) -> 'abslist': list field whose elements are abstracted
         self.inv = inv
         self.variant = variant
         self.modifies_vars = list(modifies_vars)
